@@ -495,8 +495,10 @@ class NeoxEnv:
         return own
 
     def _read_state(self) -> dict[str, Any]:
-        own = self._own_factors()
+        # the library call comes first: reading the layers ourselves would
+        # await pending factor futures and hide code that forgets to
         sd = self.pre.state_dict()
+        own = self._own_factors()
         out: dict[str, Any] = {'steps': sd['steps'], 'own': own,
                                'has_layers': 'layers' in sd}
         if 'layers' in sd:
@@ -592,7 +594,8 @@ def execute(plan: dict[str, Any], tapes: Any = None) -> dict[str, Any]:
                 random.Random(s['sched_seed'] * 1000003 + k), s['policy'],
                 world)
         cfg = core.SimCfg(poison=s.get('poison', False),
-                          latency=s.get('latency', 0.0))
+                          latency=s.get('latency', 0.0),
+                          fifo=not s.get('unordered', False))
         sim = core.Sim(world, chooser, cfg)
         p2 = dict(plan)
         p2['_restart_op'] = inc['restart_op']
@@ -721,6 +724,7 @@ def gen_neox_plan(rng: random.Random, tier: str, *, restarts: float,
         'ops': clean,
         'sim': {'policy': rng.choice(sched.POLICIES),
                 'poison': rng.random() < 0.5,
+                'unordered': rng.random() < 0.3,
                 'latency': rng.choice([0.0, 1e-4]),
                 'sched_seed': rng.randrange(1 << 30)},
     }
